@@ -2,14 +2,14 @@ from common import T_COMMON
 
 CFG = dict(
     theorems=["readObj_ranges_sum", "obj_resave_faces", "readObj_corners", "obj_roundtrip_struct",
-              "obj_roundtrip_carry", "obj_roundtrip", "obj_shared_offset_breaks"],
+              "obj_roundtrip_carry", "obj_roundtrip", "readObj_transport", "obj_roundtrip_text", "obj_shared_offset_breaks"],
     streams=[dict(name="c05", n=dict(quick=300, thorough=10000))],
     trusted=T_COMMON + [
         "text layer: the driver's lexer (bufio.ScanLines, strings.Fields, strconv.Atoi/ParseFloat(.,32), parseObjFaceComponent) and printer (strconv 'f' -1 for values with <= 15 significant digits) are hand transcriptions in lean/Driver/C05.lean, tied text-exactly by the c05.write / c05.read correspondence on every run; they are not the subject of the theorems",
         "Group.ftoks is a ghost field of the reader model (face lines per group); no other field depends on it",
     ],
     residue=[
-        "print/parse law of the text layer (lexLine (printLine l) = l up to float32 rounding of scalars) is not proved: theorems are over structured lines with scalars moved unchanged; 'float32 precision' is observed by the text-exact correspondence (print-then-parse differs from float32(x) by one float32 ulp on exact ties)",
+        "the print/parse LAWS of the text layer are hypotheses of obj_roundtrip_text (corner tokens: pc' (show c) = ok c; scalars: come back as rt x), not proved for the Go strconv / strings functions; that the driver's lexer/printer (= the Go code, by the text-exact correspondence) satisfy them is observed on every run; names are carried unchanged in the model (blank handling of g / usemtl names lives in the lexer). 'float32 precision' = rt; observed: print-then-parse differs from float32(x) by one float32 ulp on exact ties",
         "per-corner content on load->save for ARBITRARY accepted texts (predicate Resaves) is oracle-checked, not proved; proved: face count (obj_resave_faces) and what the reader's tables contain (readObj_corners)",
         "known finding: a mesh without material ranges after a mesh with ranges reads back with the carried material (obj_roundtrip_carry states the exact behaviour; obj_roundtrip needs NoMatlessAfterMat)",
         "known finding: a zero-triangle mesh that is not last loses its group (hypothesis NonemptyButLast); an empty mesh list reads back as one empty group",
